@@ -17,7 +17,9 @@ pub(crate) enum Command {
     Backup,
     /// restore the GPA service
     Restore {
-        #[arg(default_value_t = true)]
+        // a bool argument defaults to a flag action that takes no value,
+        // an explicit value (`restore false`) needs the Set action
+        #[arg(default_value_t = true, action = clap::ArgAction::Set)]
         delete_backup: bool,
     },
     /// uninstall the GPA service
